@@ -48,7 +48,10 @@ CERS = [make_cer(rc={k: _CFV[v] for k, v in s["rc"].items()}, fc=s["fc"], hints=
         for s in CER_SPECS]
 
 # ------------------------------------------------------------------------------------------- expression pools
-INVALID_EXPRESSIONS = ["Muss [1] O [501]", "X [501] O [901]", "Soll [2] O [501]"]  # well-formed but invalid
+INVALID_EXPRESSIONS = ["Muss [1] O [501]", "X [501] O [901]", "Soll [2] O [501]",  # well-formed but invalid
+                       # the offending operand is itself a composition / sits deeper / left and right swapped / chained
+                       "Muss ([1] U [2]) O [501]", "Kann [501] X ([2] O [3])", "Muss [1] O [2] O [501]",
+                       "Soll [3] U ([2] X [901])", "Muss [1] Kann ([2] U [3]) X [502]"]
 #: C13: valid, invalid, several modal marks, SOLL, UNKNOWN-yielding, hint, format constraint, package, spellings
 POOL_C13 = [
     "Muss",
@@ -352,6 +355,12 @@ def evaluator(cer_idx: int) -> Callable[[str], Any]:
                 r = common.evaluate(expression, CERS[cer_idx])
             except InvalidExpressionError as err:
                 _EVAL_CACHE[key] = Invalid(err.error_message)
+            except Exception as err:  # noqa
+                # an expression of the pool of structurally INVALID expressions (invalid by construction, whatever the
+                # evaluation does): the oracle still says 'invalid'; what validation makes of it is judged by the caller
+                if expression not in INVALID_EXPRESSIONS:
+                    raise
+                _EVAL_CACHE[key] = Invalid(f"<evaluation raised {type(err).__name__} instead of InvalidExpressionError>")
             else:
                 rc, fc = r.requirement_constraint_evaluation_result, r.format_constraint_evaluation_result
                 _EVAL_CACHE[key] = Outcome(r.requirement_indicator.name, rc.requirement_constraints_fulfilled,
